@@ -66,6 +66,8 @@ func (e *Expr) String() string {
 		return fmt.Sprintf("(%s %s: %s)", e.Op, e.Name, e.Args[0])
 	case "old":
 		return "old(" + e.Args[0].String() + ")"
+	case "athead":
+		return "athead(" + e.Args[0].String() + ")"
 	case "cond":
 		return "(" + e.Args[0].String() + " ? " + e.Args[1].String() + " : " + e.Args[2].String() + ")"
 	}
@@ -295,6 +297,11 @@ func (p *exprParser) parsePostfix() *Expr {
 			x := p.parseTop()
 			p.expect(")")
 			e = &Expr{Op: "old", Args: []*Expr{x}}
+		} else if t.s == "athead" && p.isOp("(") {
+			p.next()
+			x := p.parseTop()
+			p.expect(")")
+			e = &Expr{Op: "athead", Args: []*Expr{x}}
 		} else {
 			e = &Expr{Op: "id", Name: t.s}
 		}
